@@ -18,6 +18,8 @@ pk = collections.OrderedDict()
 unc = []
 for ln in out.splitlines():
     p, f, fn, exp, c, t = ln.split("\t")
+    if p.startswith("cmd/verifharness") or p.startswith("utils/verifhook") or "/generator" in p or f.startswith("verif_"):
+        continue  # the drivers and hook shims themselves, and the code generators
     c, t = int(c), int(t)
     a = pk.setdefault(p, [0, 0, 0, 0])
     a[0] += c
